@@ -11,6 +11,34 @@ FAMS = {   # family -> (binary, definition monitor dir/module, generator, gen co
 }
 
 
+# further families: seeded random drivers only (their generators are exercised by their own checks)
+EXT = {   # family -> (binary, monitor module, TLA library dirs, driver arguments)
+    "C03": ("c03", "Trace_C03", (), ["--max-prec", "24", "--max-gap", "40"]),
+    "C04": ("c04", "Trace_C04", ("C01",), ["--max-words", "4"]),
+    "C06": ("c06", "Trace_C06", (), ["--max-words", "6"]),
+    "C07": ("c07", "Trace_C07", ("C01",), ["--max-words", "8"]),
+    "C10": ("c10", "Trace_C10", ("C03",), ["--max-prec", "20"]),
+    "C12": ("c12", "Trace_C12", (), ["--max-words", "6"]),
+    "C13": ("c13", "Trace_C13", (), ["--max-words", "6"]),
+    "C14": ("c14", "Trace_C14", ("C06",), []),
+    "C18": ("c18", "Trace_C18", (), ["--max-words", "2"]),
+}
+
+
+def par_tlc(ctx, jobs, threads):
+    """jobs: (name, specdir, module, cfg, trace, libs); runs the monitors side by side and returns {name: TlcResult}"""
+    from concurrent.futures import ThreadPoolExecutor
+    jopts = "%s -XX:ParallelGCThreads=2 -Xmx4g -Dtlc2.tool.queue.IStateQueue=StateDeque" % fw.JAVA_BASE
+
+    def run(j):
+        name, specdir, module, cfg, trace, libs = j
+        libpath = os.pathsep.join([fw.LIB] + [os.path.join(fw.SPEC, d) for d in libs])
+        return name, fw.tlc(name, os.path.join(fw.SPEC, specdir), module, cfg, ctx.rundir, workers=1, timeout=2400,
+                            env={"TRACE": trace, "JAVA_TOOL_OPTIONS": jopts + " -DTLA-Library=" + libpath}, deque=True, libs=libs)
+    with ThreadPoolExecutor(max_workers=threads) as ex:
+        return dict(ex.map(run, jobs))
+
+
 def strip(e):
     """drops fields that legitimately differ between builds: sequence numbers, panic message texts, and the
     representation triple (capacity and length are counted in machine words)"""
@@ -77,6 +105,27 @@ def run(ctx):
             traces.append(tr)
         x = merge(ctx, fam, traces)
         ctx.monitor("xcfg-" + fam, "C19", "Trace_C19.tla", "Trace_C19.cfg", x, cover=cover, timeout=3000)
+    # the other families: one seeded driver run per configuration, monitors side by side
+    next_ = ctx.pick(120, 1200)
+    jobs, fam_traces = [], {}
+    for fam, (b, mon, libs, dargs) in EXT.items():
+        fam_traces[fam] = []
+        for c in CFGS:
+            tr = ctx.drive(fw.build(c, b), ["--seed", s, "--n", str(next_)] + dargs, "trace-%s-%s.ndjson" % (fam, c))
+            fam_traces[fam].append(tr)
+            jobs.append(("def-%s-%s" % (fam, c), fam, mon + ".tla", mon + ".cfg", tr, libs))
+    results = par_tlc(ctx, jobs, threads=ctx.pick(5, 8))
+    orig = fw.tlc
+    fw.tlc = lambda name, *a, **k: results[name]
+    try:
+        for name, fam, module, cfg, tr, libs in jobs:
+            ctx.alt_prop = fam          # the family's own known findings explain the family's events
+            ctx.monitor(name, fam, module, cfg, tr, libs=libs, cover=lambda e, name=name: [name.replace("def-", "def:").replace("-", ":", 1)])
+    finally:
+        fw.tlc = orig
+        ctx.alt_prop = None
+    # no cross-configuration diff for these families: several of their operations only promise a relation (log2 bounds,
+    # Bezout pairs, tie choices), so two builds may legitimately differ; each build is decided by the definition monitor
     # serialization
     traces = []
     ns = ctx.pick(240, 2400)
@@ -101,7 +150,8 @@ def run(ctx):
                     "and the serde driver. The binary integer format is specified byte for byte (SerdeDef) without reference to a word size.",
         required_cover=["xcfg:C01", "xcfg:C02", "xcfg:C09", "xcfg:serde", "xcfg:panic-agreement", "serde:U", "serde:I", "serde:F2", "serde:F10",
                         "serde:R", "serde:X", "decode:zero-denominator:err", "decode:unreduced:ok", "decode:mutated:err", "decode:mutated:ok",
-                        "decode:json:err", "decode:json:ok", "op:bytes", "op:frombytes", "frombytes:top-byte-0x80"] + ["def:%s:%s" % (f, c) for f in FAMS for c in CFGS])
+                        "decode:json:err", "decode:json:ok", "op:bytes", "op:frombytes", "frombytes:top-byte-0x80"]
+                       + ["def:%s:%s" % (f, c) for f in list(FAMS) + list(EXT) for c in CFGS])
 
 
 def selftest(ctx):
